@@ -26,6 +26,7 @@ struct Ev
     int fd;
 };
 static std::vector<Ev> gLog;
+static std::string gServeFile; // non-empty: every request is answered with this file (Http::serveFile)
 
 class RecHandler : public Http::Handler
 {
@@ -48,7 +49,10 @@ public:
     void onRequest(const Http::Request& req, Http::ResponseWriter w) override
     {
         gLog.push_back(Ev { (size_t)-1, E_REQUEST, 0 });
-        w.send(Http::Code::Ok, "ok:" + req.resource());
+        if (!gServeFile.empty())
+            Http::serveFile(w, gServeFile);
+        else
+            w.send(Http::Code::Ok, "ok:" + req.resource());
     }
 };
 
@@ -193,6 +197,7 @@ static void run_history(const History& h, vr::Ctx& ctx, uint64_t& steps)
     auto handler = Http::make_handler<RecHandler>();
     auto opts    = Http::Endpoint::options().flags(Tcp::Options::ReuseAddr | Tcp::Options::NoDelay).maxRequestSize(4096).headerTimeout(std::chrono::seconds(1)).bodyTimeout(std::chrono::seconds(2));
     r.srv.start(handler, opts, 1);
+    sim::S().hold_spares_send = !gServeFile.empty(); // file mode: "hold" stalls the file body, the header goes out
     steps += sim::settle();
     r.baselineFds = sim::list_fds().size();
     std::string d = "{\"history\":" + vr::jstr(hist_str(h)) + ",";
@@ -374,7 +379,7 @@ static void run_history(const History& h, vr::Ctx& ctx, uint64_t& steps)
             // exactly one response, and it is the answer to the probe's own request
             {
                 size_t bodyAt = probe.received.find("\r\n\r\n");
-                ok            = ok && bodyAt != std::string::npos && probe.received.substr(bodyAt + 4) == "ok:/lifecycle" && probe.received.find("HTTP/1.1", 8) == std::string::npos;
+                ok            = ok && bodyAt != std::string::npos && probe.received.substr(bodyAt + 4) == (gServeFile.empty() ? std::string("ok:/lifecycle") : std::string(3000, 'f')) && probe.received.find("HTTP/1.1", 8) == std::string::npos;
             }
             probe.close_orderly();
             sim::await_readiness();
@@ -401,6 +406,16 @@ int main(int argc, char** argv)
     int d2          = opt.geti("d2", 4);
     gFaults         = opt.geti("faults", 0);
     gTickMs         = opt.geti("tick", 500);
+    if (opt.geti("files", 0))
+    {
+        // responses are files: a response in flight holds one more descriptor, which has to go with the connection
+        gServeFile = "/var/tmp/c08-body-" + std::to_string(getpid());
+        FILE* f    = fopen(gServeFile.c_str(), "w");
+        std::string body(3000, 'f');
+        fwrite(body.data(), 1, body.size(), f);
+        fclose(f);
+        atexit([] { unlink(gServeFile.c_str()); });
+    }
     {
         History h;
         CState c[2];
@@ -422,6 +437,15 @@ int main(int argc, char** argv)
             if (uses1)
                 keep.push_back(x);
         }
+        gHistories.swap(keep);
+    }
+    if (opt.kv.count("history"))
+    {
+        // debugging aid: run only the histories whose text equals the argument
+        std::vector<History> keep;
+        for (auto& x : gHistories)
+            if (hist_str(x) == opt.get("history", ""))
+                keep.push_back(x);
         gHistories.swap(keep);
     }
     if (opt.kv.count("print"))
